@@ -572,6 +572,27 @@ def r45(ctx: Ctx) -> RuleReport:
           and n.args and try_fold(n.args[0]) == (True, ' ')]
     rep.add('penman._parse:_parse_comments: a comment is split at "::" and each piece at its first space', pc.loc(),
             'ok' if rp and pt else 'violation')
+    stores = [n for n in walk_local(pc.node) if isinstance(n, ast.Assign) and isinstance(n.targets[0], ast.Subscript)
+              and norm(n.targets[0].value) == 'metadata']
+    for st in stores:
+        kx, vx = st.targets[0].slice, st.value
+        unp = None
+        for n in walk_local(pc.node):
+            if isinstance(n, ast.Assign) and isinstance(n.targets[0], ast.Tuple) and len(n.targets[0].elts) == 3 and n in (x for x in [n]) \
+                    and isinstance(n.value, ast.Call) and isinstance(n.value.func, ast.Attribute) and n.value.func.attr == 'partition' \
+                    and try_fold(n.value.args[0]) == (True, ' '):
+                unp = [norm(e) for e in n.targets[0].elts]
+        if unp is None:
+            raise AnalysisError('_parse_comments: key/value are not taken from meta.partition(" ")')
+        key_ok = norm(kx) == unp[0]
+        val_ok = isinstance(vx, ast.Call) and isinstance(vx.func, ast.Attribute) and vx.func.attr == 'rstrip' and not vx.args \
+            and norm(vx.func.value) == unp[2]
+        rep.add('penman._parse:_parse_comments: the key is stored as written', pc.loc(st), 'ok' if key_ok else 'violation',
+                '' if key_ok else f'key expression {norm(kx)}')
+        rep.add('penman._parse:_parse_comments: each value is stored with trailing blanks removed and leading content kept', pc.loc(st),
+                'ok' if val_ok else 'violation',
+                '' if val_ok else f'stored value is {norm(vx)}: the formatter writes the value verbatim after one space, so a value that '
+                                  f'keeps a trailing blank (segments before another "::") or loses leading blanks does not survive format then parse')
     return rep
 
 
@@ -605,6 +626,8 @@ def r56(ctx: Ctx) -> RuleReport:
             'ok' if good else 'violation', f'{lits}')
     items = single_def(ctx, fi, rv.args[0])
     if not (isinstance(items, (ast.ListComp, ast.GeneratorExp)) and len(items.generators) == 1):
+        if rep.violations():
+            return rep
         raise AnalysisError('format_triples: the joined value is not a single-generator comprehension')
     g = items.generators[0]
     rep.add('penman._format:format_triples: every triple of the argument is written, in order', fi.loc(items),
